@@ -647,6 +647,25 @@ def obligations(tier):
                                        (lambda Q=Q, n=n, which=which: getattr(QuantumHedging(Q, n), f"{which}_prob_outcome_a_primal")()),
                                        (lambda Q=Q, n=n, which=which: getattr(QuantumHedging(Q, n), f"{which}_prob_outcome_a_dual")()),
                                        sign=1 if which == "max" else -1))
+    # history: a value method called on an object that has already answered another one must still build the textbook
+    # program for the operator the object was constructed with (the earlier call is solved for real, the later one captured)
+    for n, cx in ([(2, True), (1, True), (2, False)] if T else [(2, True)]):
+        Q = hedging_Q(n, cx)
+        meths = [(w, f) for w in ("max", "min") for f in ("primal", "dual")]
+        for (w0, f0) in meths:
+            for (w1, f1) in meths:
+                if (w0, f0) == (w1, f1) and f0 == "primal":
+                    continue
+
+                def call(Q=Q, n=n, m0=f"{w0}_prob_outcome_a_{f0}", m1=f"{w1}_prob_outcome_a_{f1}"):
+                    h = QuantumHedging(Q.copy(), n)
+                    getattr(h, m0)()
+                    return getattr(h, m1)()
+                t = SdpTask("quantum_hedging.program_is_textbook_program_after_an_earlier_call_on_the_same_object",
+                            {"reps": n, "Q": "complex" if cx else "real", "earlier_call": f"{w0}_prob_outcome_a_{f0}", "method": f"{w1}_prob_outcome_a_{f1}"},
+                            call, ref_hedging(n, w1, f1), instance=Q, abort_after=2, value_of=lambda r: float(r), tol=5e-4)
+                t.weight = 25 * n
+                obs.append(t)
     # cloning
     for kind in ("bb84", "complex pair"):
         st, pr = clone_states(kind)
